@@ -20,7 +20,9 @@ RULE = ('fixed-width integers: every value 0..2^16-1 for widths 1-2 and boundary
         'larger k), each composed (must be the SHORTEST two\'s complement, checked against int.to_bytes(signed=True) and '
         'against the RFC 4251 rules on the bytes), parsed from the canonical and from a non-canonical encoding, and '
         'composed at fixed lengths around the minimal one; '
-        'timestamps: boundary and seeded instants, run in child processes under a list of TZ settings. A case is '
+        'timestamps: boundary and seeded instants - in 8-byte fields also beyond 32 bits (2^32, 2200-01-01, the last second '
+        'of a datetime 253402300799 and the values after it, which must be refused), seconds and milliseconds - run in '
+        'child processes under a list of TZ settings. A case is '
         'non-trivial when its value is not 0 and distinct when (op, parameters, value) differs.')
 ASSUMPTIONS = [
     'NATIVE byte order is little-endian on the machine running the check (x86-64)',
@@ -527,6 +529,14 @@ def mpint_cases(rng, tier):
 # ------------------------------------------------------------------------------------------------
 
 EPOCH = datetime.datetime(1970, 1, 1, tzinfo=datetime.timezone.utc)
+MAX_EPOCH_SECONDS = 253402300799        # 9999-12-31T23:59:59Z, the last whole second a datetime carries (Lean: maxEpochSeconds)
+
+
+def _beyond(case):
+    """the field value is an instant later than 9999-12-31T23:59:59(.999)Z: no datetime exists for it, so there is
+    nothing to compose; the parser must refuse it (InvalidValue), never reduce it into range"""
+    t = case['t']
+    return t is not None and (t // 1000 if case['ms'] else t) > MAX_EPOCH_SECONDS
 
 
 def _dt_of(t, ms, naive):
@@ -560,7 +570,7 @@ class TsOracle(object):
     @staticmethod
     def lines(case):
         t = '~' if case['t'] is None else str(case['t'])
-        out = ['CT {} {} {}'.format(case['bo'], case['k'], t)]
+        out = [] if _beyond(case) else ['CT {} {} {}'.format(case['bo'], case['k'], t)]
         raw = (256 ** case['k'] - 1) if case['t'] is None else case['t']
         if 0 <= raw < 256 ** case['k']:
             out.append('PT {} {} {} {}'.format(case['bo'], case['ms'], case['k'], hx(_spec_bytes(case['bo'], case['k'], raw) + b'\x00')))
@@ -589,7 +599,7 @@ class TsOracle(object):
 
     @classmethod
     def impl(cls, case):
-        out = [cls._ct(case)]
+        out = [] if _beyond(case) else [cls._ct(case)]
         raw = (256 ** case['k'] - 1) if case['t'] is None else case['t']
         if 0 <= raw < 256 ** case['k']:
             out.append(cls._pt(case, _spec_bytes(case['bo'], case['k'], raw) + b'\x00'))
@@ -597,22 +607,30 @@ class TsOracle(object):
 
     @classmethod
     def prop(cls, case):
-        """same instant regardless of TZ: compose gives the epoch value, parse gives it back."""
+        """same instant regardless of TZ: compose gives the epoch value, parse gives it back - for EVERY instant a
+        datetime carries that fits the field (nothing is cut to 32 bits); a field value beyond 9999-12-31 is refused."""
         bad = []
         k = case['k']
         raw = (256 ** k - 1) if case['t'] is None else case['t']
-        limit = (2 ** 32) * (1000 if case['ms'] else 1)
-        if 0 <= raw < 256 ** k and (case['t'] is None or case['t'] < min(limit, 256 ** k - 1)):
-            got = cls._ct(case)
-            want = 'OK ' + hx(_spec_bytes(case['bo'], k, raw))
-            if got != want:
-                bad.append(('ts-compose', 'compose_timestamp TZ={} {} -> {} expected {}'.format(
-                    os.environ.get('TZ'), case, got, want)))
-            back = cls._pt(case, _spec_bytes(case['bo'], k, raw) + b'\x00')
-            wantp = 'OK {} {}'.format(k, '~' if case['t'] is None else case['t'])
-            if back != wantp:
-                bad.append(('ts-parse', 'parse_timestamp TZ={} {} -> {} expected {}'.format(
-                    os.environ.get('TZ'), case, back, wantp)))
+        if not 0 <= raw < 256 ** k or (case['t'] is not None and case['t'] == 256 ** k - 1):
+            return bad
+        data = _spec_bytes(case['bo'], k, raw)
+        if _beyond(case):
+            back = cls._pt(case, data + b'\x00')
+            if back != 'ERR InvalidValue':
+                bad.append(('ts-parse', 'parse_timestamp TZ={} {} ({}) -> {} expected ERR InvalidValue (later than '
+                            '9999-12-31T23:59:59Z)'.format(os.environ.get('TZ'), case, hx(data), back)))
+            return bad
+        got = cls._ct(case)
+        want = 'OK ' + hx(data)
+        if got != want:
+            bad.append(('ts-compose', 'compose_timestamp TZ={} {} -> {} expected {}'.format(
+                os.environ.get('TZ'), case, got, want)))
+        back = cls._pt(case, data + b'\x00')
+        wantp = 'OK {} {}'.format(k, '~' if case['t'] is None else case['t'])
+        if back != wantp:
+            bad.append(('ts-parse', 'parse_timestamp TZ={} {} ({}) -> {} expected {}'.format(
+                os.environ.get('TZ'), case, hx(data), back, wantp)))
         return bad
 
 
@@ -639,6 +657,41 @@ def all_zones():
     return sorted(zones)
 
 
+# second counts an 8-byte field holds beyond 32 bits: 2106-02-07, 2200-01-01, the last second of a datetime, the first
+# one after it, and values far outside (2^64-1 is the sentinel, covered by t=None)
+WIDE_SECONDS = [2 ** 32, 2 ** 32 + 5, 7258118400, MAX_EPOCH_SECONDS - 1, MAX_EPOCH_SECONDS, MAX_EPOCH_SECONDS + 1,
+                2 ** 63, 2 ** 64 - 2]
+OFFSETS = [True, False, 60, -300, 330, 765, -720]
+
+
+def _offset_for(rng, secs):
+    """how the datetime handed to compose is written: naive, UTC, or the same instant at a fixed offset; at the very
+    end of the calendar only offsets that stay inside it"""
+    if secs > MAX_EPOCH_SECONDS - 2 * 86400:
+        return rng.choice([True, False, -300, -720])
+    return rng.choice(OFFSETS)
+
+
+def wide_ts_cases(rng, n_random):
+    """8-byte fields holding more than 32 bits, seconds and milliseconds; below the bound an exact round trip is
+    expected, above it InvalidValue"""
+    cases = []
+    secs = list(WIDE_SECONDS)
+    for _ in range(n_random):
+        secs.append(rng.randrange(2 ** 32, MAX_EPOCH_SECONDS + 1))
+    for _ in range(max(2, n_random // 8)):
+        secs.append(rng.randrange(MAX_EPOCH_SECONDS + 1, 2 ** 64 - 1))
+    for t in secs:
+        cases.append({'kind': 'ts', 'bo': rng.choice(BOS), 'k': 8, 'ms': 0, 't': t, 'naive': _offset_for(rng, t)})
+        for frac in (0, 7, 999):
+            if t * 1000 + frac < 2 ** 64 - 1:
+                cases.append({'kind': 'ts', 'bo': rng.choice(BOS), 'k': 8, 'ms': 1, 't': t * 1000 + frac,
+                              'naive': _offset_for(rng, t)})
+    for raw in (2 ** 63, 2 ** 64 - 2, (MAX_EPOCH_SECONDS + 1) * 1000 - 1, (MAX_EPOCH_SECONDS + 1) * 1000):
+        cases.append({'kind': 'ts', 'bo': rng.choice(BOS), 'k': 8, 'ms': 1, 't': raw, 'naive': False})
+    return cases
+
+
 def ts_cases(rng, tier):
     instants = [0, 1, 86399, 86400, 1400000000, 1414281599, 1414281600, 1193875200, 733276800, 354931200,
                 2 ** 31 - 1, 2 ** 31, 2 ** 32 - 2, 1711846800, 1711850400, 1729994400, 1698541200, 1301788800,
@@ -651,7 +704,9 @@ def ts_cases(rng, tier):
             bo = rng.choice(BOS) if k != 4 else 'network'
             tt = t * 1000 + rng.randrange(1000) if ms else t
             cases.append({'kind': 'ts', 'bo': bo, 'k': k, 'ms': ms, 't': tt,
-                          'naive': rng.choice([True, False, 60, -300, 330, 765, -720])})
+                          'naive': rng.choice(OFFSETS)})
+    # the wide values come first among the 8-byte cases, so that a fault there is reported on 2^32 / 7258118400
+    cases = wide_ts_cases(rng, 10 if tier == 'quick' else 100) + cases
     for k, ms in ((8, 0), (4, 0), (8, 1)):
         for bo in BOS:
             cases.append({'kind': 'ts', 'bo': bo, 'k': k, 'ms': ms, 't': None, 'naive': False})
@@ -808,6 +863,7 @@ def run(run, driver_ok=True, deep=False):
                       'naive': rng.choice([True, False, 60, -300, 330, 765, -720])})
         if dense[-1]['k'] == 4:
             dense[-1]['bo'] = rng.choice(BOS)
+    dense = wide_ts_cases(rng, 400 if tier == 'quick' else 20000) + dense
     for c in dense[:50]:
         run.note_nontrivial(('ts', c['k'], c['ms'], c['t']))
     run.count('ops', 'ts-dense', len(dense))
@@ -824,6 +880,7 @@ def run(run, driver_ok=True, deep=False):
         if c.get('t'):
             run.note_nontrivial(('ts', c['k'], c['ms'], c['t']))
     run.sample(dict(tcases[5], TZ='Europe/Moscow'))
+    run.sample(dict(tcases[8], TZ='Asia/Kolkata'))
     # classes that carry a wire time: hello messages (4-byte gmt_unix_time), under the same zones
     from harness import gen_tls
     for i in range(12 if tier == 'quick' else 60):
